@@ -5,6 +5,8 @@
 //              oas_corpus::build(i)           a freshly allocated Library (free with destroy())
 //              oas_corpus::describe(i)        JSON object describing library i
 //              oas_corpus::info(i)            classification used for tiers / non-triviality
+//              oas_corpus::expected(i)        for members with a transformation history / non-simple paths: what the
+//                                             saved file must denote, from the corpus' own arithmetic
 //              oas_corpus::key(i) / find_key  stable member identifier (survives corpus growth)
 //              oas_corpus::destroy(lib)       frees the library, its cells and the cells that were
 //                                             deliberately NOT added to it
@@ -333,9 +335,21 @@ inline const std::vector<eg::Poly>& lattice_polygons() {
 }
 
 // ------------------------------------------------------------------ the corpus
+// What the file written from a member must denote, computed by the corpus' OWN arithmetic from the
+// construction parameters (not from gdstk's bookkeeping): used by members whose elements went through
+// scale / mirror / rotate / transform before saving, and for non-simple paths (saved as their outline).
+struct ExpPath { Tag tag; std::vector<Vec2> centre; double half_width; int end; Vec2 ext; };  // end: 0 flush, 1 half-width, 2 extended (ext = start, end)
+struct ExpPoly { Tag tag; std::vector<Vec2> pts; };                                           // compared as a region outline (collinear vertices ignored)
+struct Expected {
+    bool present = false;
+    bool all_simple = true;  // no non-simple path: the struct walk of the source must agree with the expectation too
+    std::vector<ExpPath> paths;
+    std::vector<ExpPoly> polys;
+};
 struct Entry {
     Info info;
     std::function<void(Builder&)> make;
+    Expected expected;
 };
 
 inline Tag T(uint32_t layer, uint32_t type) { return make_tag(layer, type); }
@@ -678,6 +692,87 @@ inline std::vector<Entry> make_entries() {
                    [=](Builder& b, Cell* a) { Cell* bb = b.cell("B"); Cell* c = b.cell("C"); b.poly(c, tri, T(1, 0)); b.ref(bb, c, Vec2{1, 0}); b.ref(a, bb, Vec2{0, 1}, M_PI); b.ref(a, bb, Vec2{5, 1}, 0, 2); b.ref(a, c, Vec2{5, 5}, 0.3, 0.5, true); },
                    reduced);
     }
+    // ---- family history.*: paths with a transformation HISTORY before saving.  Base paths x 10 histories x
+    //      scale_width {true,false}.  The expectation is computed here with plain affine arithmetic on the
+    //      construction parameters: points -> A(p); width x |m| iff scale_width; end extensions x |m|.
+    {
+        struct Aff { double a, b, c, d, tx, ty, m; };  // p -> (a x + b y + tx, c x + d y + ty), |m| = length scale
+        auto apply = [](const Aff& A, Vec2 p) { return Vec2{A.a * p.x + A.b * p.y + A.tx, A.c * p.x + A.d * p.y + A.ty}; };
+        struct Hist { const char* name; Aff A; bool axis_preserving; std::function<void(FlexPath&)> f; std::function<void(RobustPath&)> r; };
+        auto scale_aff = [](double m, Vec2 c) { return Aff{m, 0, 0, m, c.x * (1 - m), c.y * (1 - m), fabs(m)}; };
+        auto rot_aff = [](double ang, Vec2 c) { double co = cos(ang), si = sin(ang); return Aff{co, -si, si, co, c.x - co * c.x + si * c.y, c.y - si * c.x - co * c.y, 1}; };
+        auto trans_aff = [](double m, bool refl, double ang, Vec2 o) { double co = cos(ang), si = sin(ang), sy = refl ? -1 : 1; return Aff{m * co, -sy * m * si, m * si, sy * m * co, o.x, o.y, fabs(m)}; };
+        std::vector<Hist> hs;
+        hs.push_back({"scale(2,about(1,1))", scale_aff(2, Vec2{1, 1}), true, [](FlexPath& f) { f.scale(2, Vec2{1, 1}); }, [](RobustPath& r) { r.scale(2, Vec2{1, 1}); }});
+        hs.push_back({"scale(0.5,about(0,0))", scale_aff(0.5, Vec2{0, 0}), true, [](FlexPath& f) { f.scale(0.5, Vec2{0, 0}); }, [](RobustPath& r) { r.scale(0.5, Vec2{0, 0}); }});
+        hs.push_back({"scale(3,about(-4,2))", scale_aff(3, Vec2{-4, 2}), true, [](FlexPath& f) { f.scale(3, Vec2{-4, 2}); }, [](RobustPath& r) { r.scale(3, Vec2{-4, 2}); }});
+        hs.push_back({"scale(2)_then_scale(0.25)", Aff{0.5, 0, 0, 0.5, 0, 0, 0.5}, true, [](FlexPath& f) { f.scale(2, Vec2{0, 0}); f.scale(0.25, Vec2{0, 0}); },
+                      [](RobustPath& r) { r.scale(2, Vec2{0, 0}); r.scale(0.25, Vec2{0, 0}); }});
+        hs.push_back({"mirror(x_axis)", Aff{1, 0, 0, -1, 0, 0, 1}, true, [](FlexPath& f) { f.mirror(Vec2{0, 0}, Vec2{1, 0}); }, [](RobustPath& r) { r.mirror(Vec2{0, 0}, Vec2{1, 0}); }});
+        hs.push_back({"mirror(line_x=3)", Aff{-1, 0, 0, 1, 6, 0, 1}, true, [](FlexPath& f) { f.mirror(Vec2{3, 0}, Vec2{3, 5}); }, [](RobustPath& r) { r.mirror(Vec2{3, 0}, Vec2{3, 5}); }});
+        hs.push_back({"rotate(pi/2,about(1,2))", rot_aff(0.5 * M_PI, Vec2{1, 2}), true, [](FlexPath& f) { f.rotate(0.5 * M_PI, Vec2{1, 2}); }, [](RobustPath& r) { r.rotate(0.5 * M_PI, Vec2{1, 2}); }});
+        hs.push_back({"rotate(0.3,about(0,0))", rot_aff(0.3, Vec2{0, 0}), false, [](FlexPath& f) { f.rotate(0.3, Vec2{0, 0}); }, nullptr});  // flexpath only: a rotated robust path is sampled at off-grid quarter points
+        hs.push_back({"transform(mag2,reflect,pi/2,(3,-1))", trans_aff(2, true, 0.5 * M_PI, Vec2{3, -1}), true, [](FlexPath& f) { f.transform(2, true, 0.5 * M_PI, Vec2{3, -1}); },
+                      [](RobustPath& r) { r.transform(2, true, 0.5 * M_PI, Vec2{3, -1}); }});
+        hs.push_back({"transform(mag0.5,no_reflection,pi,(0,4))", trans_aff(0.5, false, M_PI, Vec2{0, 4}), true, [](FlexPath& f) { f.transform(0.5, false, M_PI, Vec2{0, 4}); },
+                      [](RobustPath& r) { r.transform(0.5, false, M_PI, Vec2{0, 4}); }});
+        struct Base { const char* name; bool robust, simple; std::vector<Vec2> pts; double width; int end; Vec2 ext; };
+        std::vector<Base> bases = {
+            {"flexpath_simple_L3_extended(2,3)", false, true, {{0, 0}, {8, 0}, {8, 4}}, 1, 2, {2, 3}},
+            {"flexpath_simple_L3_halfwidth", false, true, {{0, 0}, {8, 0}, {8, 4}}, 1, 1, {0, 0}},
+            {"flexpath_simple_2pt_flush", false, true, {{-4, 4}, {4, 4}}, 2, 0, {0, 0}},
+            {"robustpath_simple_L3_extended(1,3)", true, true, {{0, 0}, {8, 0}, {8, -4}}, 2, 2, {1, 3}},
+            {"robustpath_simple_L3_halfwidth", true, true, {{0, 0}, {8, 0}, {8, -4}}, 2, 1, {0, 0}},
+            {"robustpath_simple_2pt_flush", true, true, {{-4, 4}, {4, 4}}, 1, 0, {0, 0}},
+            {"flexpath_nonsimple_2pt_flush", false, false, {{0, 4}, {8, 4}}, 2, 0, {0, 0}},
+            {"robustpath_nonsimple_2pt_flush", true, false, {{0, 4}, {8, 4}}, 2, 0, {0, 0}},
+        };
+        for (auto& bs : bases)
+            for (auto& h : hs)
+                for (int sw = 1; sw >= 0; sw--) {
+                    if (bs.robust && !h.r) continue;
+                    if (!bs.simple && !h.axis_preserving) continue;
+                    Base b0 = bs;
+                    Hist h0 = h;
+                    Entry e;
+                    e.info.family = std::string("single.history.") + (bs.robust ? "robustpath" : "flexpath") + (bs.simple ? "" : "_nonsimple");
+                    e.info.desc = fmt("%s after %s, scale_width=%d", bs.name, h.name, sw);
+                    e.info.single = true;
+                    e.info.reduced = sw == 1 && (std::string(h.name) == "scale(2,about(1,1))" || std::string(h.name) == "transform(mag2,reflect,pi/2,(3,-1))") && bs.end != 1;
+                    e.make = [b0, h0, sw](Builder& b) {
+                        b.start();
+                        Cell* a = b.cell("A");
+                        EndType et = b0.end == 0 ? EndType::Flush : b0.end == 1 ? EndType::HalfWidth : EndType::Extended;
+                        if (b0.robust) {
+                            RobustPath* r = b.rpath(a, b0.pts, b0.width, et, b0.ext, T(2, 9));
+                            r->simple_path = b0.simple;
+                            r->scale_width = sw;
+                            h0.r(*r);
+                        } else {
+                            FlexPath* f = b.fpath(a, b0.pts, b0.width, et, b0.ext, T(2, 9));
+                            f->simple_path = b0.simple;
+                            f->scale_width = sw;
+                            h0.f(*f);
+                        }
+                    };
+                    // ---- the expectation, by own arithmetic
+                    e.expected.present = true;
+                    e.expected.all_simple = bs.simple;
+                    double wf = sw ? h.A.m : 1.0, hw = 0.5 * bs.width * wf;
+                    std::vector<Vec2> centre;
+                    for (auto& p : bs.pts) centre.push_back(apply(h.A, p));
+                    if (bs.simple) {
+                        e.expected.paths.push_back({T(2, 9), centre, hw, bs.end, Vec2{bs.ext.x * h.A.m, bs.ext.y * h.A.m}});
+                    } else {
+                        // flush straight path: the outline is the rectangle centre line +- half width
+                        Vec2 d = centre[1] - centre[0];
+                        double len = sqrt(d.x * d.x + d.y * d.y);
+                        Vec2 n = {-d.y / len * hw, d.x / len * hw};
+                        e.expected.polys.push_back({T(2, 9), {centre[0] - n, centre[1] - n, centre[1] + n, centre[0] + n}});
+                    }
+                    E.push_back(e);
+                }
+    }
     // ---- family cells: library-level shapes
     {
         Entry e;
@@ -927,6 +1022,7 @@ inline std::map<Library*, std::vector<Cell*>>& extra_cells() {
 
 inline int64_t count() { return (int64_t)entries().size(); }
 inline const Info& info(int64_t i) { return entries()[i].info; }
+inline const Expected& expected(int64_t i) { return entries()[i].expected; }
 inline std::string describe(int64_t i) {
     const Info& f = entries()[i].info;
     return jobj({{"library", jint(i)}, {"family", jstr(f.family)}, {"member", jstr(f.desc)}});
